@@ -46,7 +46,7 @@ pub fn run(case: &Value, em: &mut Emitter) {
 pub fn gen_fn_map(rng: &mut Rng, size: usize) -> Value {
     let nnames = 1 + rng.below(4);
     let names: Vec<String> = (0..nnames).map(|i| format!("{}{}", *rng.pick(&["<global>", "fn", "Foo.bar", "λ", "anon"]), i)).collect();
-    let n = rng.below((size * 3) as u64 + 1);
+    let n = if rng.chance(1, 10) { 64 + rng.below(150) } else { rng.below((size * 3) as u64 + 1) };
     let mut text: Vec<i64> = vec![];
     let (mut line, mut col, mut name) = (1i64, 0i64, 0i64);
     let mut first_on_wire_line = true;
@@ -69,8 +69,8 @@ pub fn gen_fn_map(rng: &mut Rng, size: usize) -> Value {
 }
 
 pub fn gen_hermes_doc(rng: &mut Rng, size: usize) -> Value {
-    let nsrc = 1 + rng.below(3);
-    let ntok = rng.below((size * 5) as u64 + 1);
+    let nsrc = if rng.chance(1, 12) { 64 + rng.below(10) } else { 1 + rng.below(3) };
+    let ntok = if nsrc > 10 { 100 + rng.below(100) } else { rng.below((size * 5) as u64 + 1) };
     let mut toks = vec![];
     let mut col = 0i64;
     for _ in 0..ntok {
